@@ -319,30 +319,32 @@ class Renderer:
         return self.stmts(b[1])
 
     def stmts(self, lst):
+        """Statements of one line (or branch), separated by colons.  An ["empty"] statement renders as nothing: '::', ':ELSE', a colon at the
+        line end.  Blanks between an unquoted / empty DATA item and the colon that ends the DATA statement are content, not layout."""
         out = ""
+        tail_data = False  # does `out` end in the last item of such a DATA statement?
+
+        def colon(o):
+            if tail_data or not o:
+                return o + ":"
+            return self.j(o, ":")
+
         for i, s in enumerate(lst):
             if s[0] == "empty":
-                # an empty statement: nothing between two colons, after the last colon of a line, or between a colon and ELSE
                 if i:
-                    out = self.j(out, ":") if out else out + ":"
+                    out = colon(out)
+                    tail_data = False
                 continue
             t = self.stmt(s)
             if i == 0:
                 out = t
-                continue
-            if lst[i - 1][0] == "empty":
-                out = (self.j(out, ":") if out else ":")
-                out = self.j(out, t)
-                continue
-            prev = lst[i - 1]
-            if s[0] == "rem" and len(s) > 3 and s[3] == "nocolon" and s[2] == "'" and prev[0] != "data":
+            elif s[0] == "rem" and len(s) > 3 and s[3] == "nocolon" and s[2] == "'" and not tail_data and lst[i - 1][0] != "empty":
                 out = self.j(out, t)  # an apostrophe comment needs no colon before it
-            elif prev[0] == "data" and prev[1] and prev[1][-1][0] in ("u", "e"):
-                # blanks after an unquoted DATA item are content: no layout gap before the colon
-                out = out + ":"
-                out = self.j(out, t)
             else:
-                out = self.j(out, ":", t)
+                out = colon(out)
+                tail_data = False
+                out = self.j(out, t)
+            tail_data = s[0] == "data" and bool(s[1]) and s[1][-1][0] in ("u", "e")
         return out
 
     def data_item(self, it):
